@@ -33,12 +33,80 @@ func init() {
 			if h, ok := a[0].(*HostObj); ok && h.Kind == "os.Stdout" {
 				ip.stdout = append(ip.stdout, ip.strBytes(a[1].(*StrV))...)
 			}
+			if h, ok := a[0].(*HostObj); ok && h.Kind == "file" {
+				for _, b := range ip.strBytes(a[1].(*StrV)) {
+					h.Data = append(h.Data, b)
+				}
+			}
+			if h, ok := a[0].(*HostObj); ok && h.Kind == "devfull" {
+				return TupleV{ip.p.T.Const(64, 0), ip.mkError("write /dev/full: no space left on device")}
+			}
 			return TupleV{ip.p.T.Const(64, uint64(a[1].(*StrV).Len())), IfaceV{}}
 		},
 		"(*os.File).Write": func(ip *Interp, fn *ssa.Function, a []Value) Value {
+			if h, ok := a[0].(*HostObj); ok {
+				switch h.Kind {
+				case "os.Stdout":
+					for _, b := range a[1].(SliceV).Data {
+						ip.stdout = append(ip.stdout, b.(*Term))
+					}
+				case "file":
+					h.Data = append(h.Data, a[1].(SliceV).Data...)
+				case "devfull":
+					return TupleV{ip.p.T.Const(64, 0), ip.mkError("write /dev/full: no space left on device")}
+				}
+			}
 			return TupleV{ip.p.T.Const(64, uint64(len(a[1].(SliceV).Data))), IfaceV{}}
 		},
 		"(*os.File).Close": func(ip *Interp, fn *ssa.Function, a []Value) Value { return IfaceV{} },
+		"os.Open": func(ip *Interp, fn *ssa.Function, a []Value) Value {
+			name := ip.concStr(a[0].(*StrV))
+			f, ok := ip.vfs[name]
+			if !ok {
+				return TupleV{Pointer{}, ip.mkError("open " + name + ": no such file or directory")}
+			}
+			// a fresh handle on the same content
+			return TupleV{&HostObj{Kind: "file", Data: f.Data, Aux: f}, IfaceV{}}
+		},
+		"os.Create": func(ip *Interp, fn *ssa.Function, a []Value) Value {
+			name := ip.concStr(a[0].(*StrV))
+			if ip.vfs == nil {
+				ip.vfs = map[string]*HostObj{}
+			}
+			if name == "/dev/full" {
+				// the device that accepts no byte: every write fails with ENOSPC
+				return TupleV{&HostObj{Kind: "devfull"}, IfaceV{}}
+			}
+			f := &HostObj{Kind: "file"}
+			ip.vfs[name] = f
+			return TupleV{f, IfaceV{}}
+		},
+		"os.MkdirAll": func(ip *Interp, fn *ssa.Function, a []Value) Value { return IfaceV{} },
+		"(*os.File).Read": func(ip *Interp, fn *ssa.Function, a []Value) Value {
+			h, ok := a[0].(*HostObj)
+			if !ok {
+				unsupported("read from a nil *os.File")
+			}
+			if h.Kind == "os.Stdin" {
+				if h.Data == nil {
+					h = &HostObj{Kind: "file", Data: ip.stdin}
+				}
+			}
+			return inReaderRead(ip, fn, []Value{h, a[1]})
+		},
+		"(*os.File).Seek": func(ip *Interp, fn *ssa.Function, a []Value) Value {
+			h := a[0].(*HostObj)
+			off := int(ip.concInt(a[1]))
+			switch ip.concInt(a[2]) {
+			case 0:
+				h.Pos = off
+			case 1:
+				h.Pos += off
+			case 2:
+				h.Pos = len(h.Data) + off
+			}
+			return TupleV{ip.p.T.Const(64, uint64(h.Pos)), IfaceV{}}
+		},
 
 		"strconv.Itoa":        inItoa,
 		"strconv.Atoi":        inAtoi,
@@ -53,6 +121,7 @@ func init() {
 
 		"strings.Join":       inJoin,
 		"strings.ToUpper":    inToUpper,
+		"strings.ToLower":    inToLower,
 		"strings.Fields":     inFields,
 		"strings.Split":      inSplit,
 		"strings.TrimSpace":  inTrimSpace,
@@ -107,8 +176,6 @@ func init() {
 
 		"sort.SliceStable": inSortSlice,
 		"sort.Slice":       inSortSlice,
-		"sort.Sort":        inSortSort,
-		"sort.Stable":      inSortSort,
 		"sort.Ints":        inSortInts,
 		"sort.Strings":     inSortStrings,
 
@@ -129,11 +196,19 @@ func init() {
 		"unicode/utf8.DecodeRune": inDecodeRune,
 
 		"bufio.NewScanner":          inNewScanner,
-		"(*bufio.Scanner).Buffer":   func(ip *Interp, fn *ssa.Function, a []Value) Value { return nil },
+		"(*bufio.Scanner).Buffer": func(ip *Interp, fn *ssa.Function, a []Value) Value {
+			a[0].(*HostObj).N = int(ip.concInt(a[2])) // maximum token size
+			return nil
+		},
 		"(*bufio.Scanner).Scan":     inScan,
 		"(*bufio.Scanner).Text":     inScanText,
 		"(*bufio.Scanner).Bytes":    inScanBytes,
-		"(*bufio.Scanner).Err":      func(ip *Interp, fn *ssa.Function, a []Value) Value { return IfaceV{} },
+		"(*bufio.Scanner).Err": func(ip *Interp, fn *ssa.Function, a []Value) Value {
+			if e := a[0].(*HostObj).Err; e != nil {
+				return e
+			}
+			return IfaceV{}
+		},
 
 		"encoding/csv.NewReader":     inCSVNewReader,
 		"(*encoding/csv.Reader).Read": inCSVRead,
@@ -187,6 +262,36 @@ func init() {
 			return SliceV{Data: d}
 		},
 		"internal/stringslite.Index": inIndexSub,
+		"errors.Is": func(ip *Interp, fn *ssa.Function, a []Value) Value {
+			T := ip.p.T
+			err, _ := a[0].(IfaceV)
+			target, _ := a[1].(IfaceV)
+			for k := 0; k < 50; k++ {
+				if err.T == nil {
+					return T.Bool(target.T == nil)
+				}
+				if target.T != nil && types.Identical(err.T, target.T) {
+					if ip.p.Branch(ip.valEq(err, target)) {
+						return T.True
+					}
+				}
+				sel := ip.pr.Prog.MethodSets.MethodSet(err.T).Lookup(nil, "Unwrap")
+				if sel == nil {
+					return T.False
+				}
+				m := ip.pr.Prog.MethodValue(sel)
+				if m == nil || m.Signature.Results().Len() != 1 {
+					return T.False
+				}
+				r := ip.callFunction(m, []Value{err.V})
+				next, ok := r.(IfaceV)
+				if !ok {
+					return T.False
+				}
+				err = next
+			}
+			return T.False
+		},
 		"regexp.MatchString": func(ip *Interp, fn *ssa.Function, a []Value) Value {
 			pat := ip.concStr(a[0].(*StrV))
 			str := ip.concStr(a[1].(*StrV))
@@ -433,6 +538,27 @@ func inToUpper(ip *Interp, fn *ssa.Function, a []Value) Value {
 		}
 		isLower := T.And(T.Cmp(OpUle, T.Const(8, 'a'), b), T.Cmp(OpUle, b, T.Const(8, 'z')))
 		out[i] = T.Ite(isLower, T.Bin(OpSub, b, T.Const(8, 32)), b)
+	}
+	return strFromTerms(out)
+}
+
+func inToLower(ip *Interp, fn *ssa.Function, a []Value) Value {
+	s := a[0].(*StrV)
+	if s.IsConc() {
+		return mkStr(strings.ToLower(s.S))
+	}
+	T := ip.p.T
+	out := make([]*Term, len(s.Sym))
+	for i, b := range s.Sym {
+		if b.IsConst() && b.C < 0x80 {
+			out[i] = T.Const(8, uint64(strings.ToLower(string(rune(b.C)))[0]))
+			continue
+		}
+		if !ip.isASCIIByte(b) {
+			return mkStr(strings.ToLower(ip.concStr(s)))
+		}
+		isUpper := T.And(T.Cmp(OpUle, T.Const(8, 'A'), b), T.Cmp(OpUle, b, T.Const(8, 'Z')))
+		out[i] = T.Ite(isUpper, T.Bin(OpAdd, b, T.Const(8, 32)), b)
 	}
 	return strFromTerms(out)
 }
@@ -760,56 +886,40 @@ func (ip *Interp) lessCall(less Value, i, j int) bool {
 	return ip.p.Branch(r.(*Term))
 }
 
-// inSortSlice: sort.Slice uses insertion sort for n <= 12 (pdqsort_func), sort.SliceStable uses
-// insertion sort for n <= 20 (stable_func with blockSize 20). Larger inputs are outside the model.
+// inSortSlice: sort.Slice / sort.SliceStable run the standard library's own pdqsort_func / stable_func (interpreted
+// from their SSA, so every size takes the algorithm the real program takes); only the reflection-based element
+// swapper and length are supplied by the engine. sort.Sort / sort.Stable are interpreted entirely from SSA.
 func inSortSlice(ip *Interp, fn *ssa.Function, a []Value) Value {
+	T := ip.p.T
 	sl, ok := a[0].(IfaceV).V.(SliceV)
 	if !ok {
 		panic(engineError{"sort.Slice of non-slice"})
 	}
 	n := len(sl.Data)
-	lim := 12
+	swap := &HostFn{Name: "reflectlite.Swapper", F: func(ip *Interp, args []Value) Value {
+		i, j := int(ip.concInt(args[0])), int(ip.concInt(args[1]))
+		sl.Data[i], sl.Data[j] = sl.Data[j], sl.Data[i]
+		return nil
+	}}
+	pkg := fn.Pkg
+	ls := StructV{a[1], swap}
 	if fn.Name() == "SliceStable" {
-		lim = 20
-	}
-	if n > lim {
-		panic(pathEnd{"budget", fmt.Sprintf("%s of %d elements is outside the modelled insertion-sort range (<=%d)", fn.Name(), n, lim)})
-	}
-	less := a[1]
-	for i := 1; i < n; i++ {
-		for j := i; j > 0 && ip.lessCall(less, j, j-1); j-- {
-			sl.Data[j], sl.Data[j-1] = sl.Data[j-1], sl.Data[j]
+		f := pkg.Func("stable_func")
+		if f == nil {
+			panic(engineError{"sort.stable_func not found"})
 		}
+		ip.callFunction(f, []Value{ls, T.Const(64, uint64(n))})
+		return nil
 	}
-	return nil
-}
-
-func inSortSort(ip *Interp, fn *ssa.Function, a []Value) Value {
-	T := ip.p.T
-	d := a[0].(IfaceV)
-	if d.T == nil {
-		ip.goPanic("sort on nil interface")
+	f := pkg.Func("pdqsort_func")
+	if f == nil {
+		panic(engineError{"sort.pdqsort_func not found"})
 	}
-	mLen := ip.pr.Prog.LookupMethod(d.T, nil, "Len")
-	mLess := ip.pr.Prog.LookupMethod(d.T, nil, "Less")
-	mSwap := ip.pr.Prog.LookupMethod(d.T, nil, "Swap")
-	n := int(ip.concInt(ip.callFunction(mLen, []Value{d.V})))
-	lim := 12
-	if fn.Name() == "Stable" {
-		lim = 20
+	limit := 0
+	for x := n; x > 0; x >>= 1 {
+		limit++
 	}
-	if n > lim {
-		panic(pathEnd{"budget", fmt.Sprintf("sort.%s of %d elements is outside the modelled insertion-sort range", fn.Name(), n)})
-	}
-	for i := 1; i < n; i++ {
-		for j := i; j > 0; j-- {
-			r := ip.callFunction(mLess, []Value{d.V, T.Const(64, uint64(j)), T.Const(64, uint64(j-1))})
-			if !ip.p.Branch(r.(*Term)) {
-				break
-			}
-			ip.callFunction(mSwap, []Value{d.V, T.Const(64, uint64(j)), T.Const(64, uint64(j-1))})
-		}
-	}
+	ip.callFunction(f, []Value{ls, T.Const(64, 0), T.Const(64, uint64(n)), T.Const(64, uint64(limit))})
 	return nil
 }
 
@@ -909,7 +1019,12 @@ func (ip *Interp) readAll(r Value) []Value {
 	if iv.T == nil {
 		ip.goPanic("nil io.Reader")
 	}
-	if h, ok := iv.V.(*HostObj); ok && h.Kind == "reader" {
+	if h, ok := iv.V.(*HostObj); ok && h.Kind == "os.Stdin" {
+		d := ip.stdin
+		ip.stdin = nil
+		return d
+	}
+	if h, ok := iv.V.(*HostObj); ok && (h.Kind == "reader" || h.Kind == "file") {
 		d := h.Data[h.Pos:]
 		h.Pos = len(h.Data)
 		return d
@@ -938,7 +1053,7 @@ func (ip *Interp) readAll(r Value) []Value {
 }
 
 func inNewScanner(ip *Interp, fn *ssa.Function, a []Value) Value {
-	return &HostObj{Kind: "scanner", Data: ip.readAll(a[0])}
+	return &HostObj{Kind: "scanner", Data: ip.readAll(a[0]), N: 64 * 1024} // bufio.MaxScanTokenSize
 }
 
 func inScan(ip *Interp, fn *ssa.Function, a []Value) Value {
@@ -956,6 +1071,17 @@ func inScan(ip *Interp, fn *ssa.Function, a []Value) Value {
 		i++
 	}
 	tok := s.Data[s.Pos:i]
+	// token limit: the scanner's buffer (at most N bytes) must hold the line and its newline
+	need := i - s.Pos
+	if i < len(s.Data) {
+		need++
+	}
+	if s.N > 0 && need > s.N {
+		s.Err = ip.mkError("bufio.Scanner: token too long")
+		s.Tok = nil
+		s.Pos = len(s.Data)
+		return T.False
+	}
 	if i < len(s.Data) {
 		s.Pos = i + 1
 	} else {
